@@ -197,8 +197,9 @@ impl<'a> StylesheetParser<'a> for SassParser<'a> {
                 statements.push(child);
             }
 
-            let indentation = self.read_indentation()?;
-            assert_eq!(indentation, 0);
+            // dart-sass only asserts (in debug builds) that this is 0; a release build
+            // carries on with whatever indentation the next top-level statement has
+            self.read_indentation()?;
         }
 
         Ok(statements)
